@@ -691,15 +691,16 @@ impl<T: PPGEvaluatorStrategy> PPGEvaluator<T> {
         }
 
         let filter_if_renamed = |job_id: &str| -> bool {
-            if job_id.contains(":::") {
-                let last_time = multi_parts_to_jobs.get(job_id);
-                match last_time {
-                    Some(last_time) => last_time == job_id,
-                    None => true, //not present.
+            // drop the records of a job one of whose outputs is now produced
+            // by a (present) job of a different name.
+            for part in job_id.split(":::") {
+                if let Some(owner) = multi_parts_to_jobs.get(part) {
+                    if *owner != *job_id {
+                        return false;
+                    }
                 }
-            } else {
-                return true;
             }
+            true
         };
 
         let mut out = self.history.clone();
